@@ -50,6 +50,9 @@ func (in *Interp) initDepGlobal(g *ssa.Global, p *Value) {
 
 var zeroOKGlobals = map[string]bool{
 	"sync.expunged": true,
+	// empty-struct values
+	"encoding/binary.LittleEndian": true,
+	"encoding/binary.BigEndian":    true,
 }
 
 func (c *Config) allowedZeroGlobalPkg(path string) bool {
